@@ -285,6 +285,9 @@ func extractFacts(repo string) (string, error) {
 		{"cachepolicy/cacheexecutor.go", "executor", "PostExecute"}, {"policy/policyexecutor.go", "BaseExecutor", "Apply"},
 		{"policy/policyexecutor.go", "BaseExecutor", "PostExecute"}, {"internal/util/util.go", "", "MergeContexts"},
 		{"failsafehttp/http.go", "", "doRequest"}, {"failsafehttp/http.go", "", "bodyReader"},
+		{"failsafehttp/http.go", "cancelOnCloseBody", "Close"}, {"failsafehttp/http.go", "roundTripper", "RoundTrip"}, {"failsafehttp/http.go", "Request", "Do"},
+		{"failsafegrpc/client.go", "", "NewUnaryClientInterceptorWithExecutor"}, {"failsafegrpc/server.go", "", "NewUnaryServerInterceptorWithExecutor"},
+		{"failsafegrpc/server.go", "", "NewServerInHandleWithExecutor"},
 	} {
 		key := strings.TrimSuffix(filepath.Base(e[0]), ".go") + ":" + e[1] + "." + e[2]
 		if fd := fx.fn(e[0], e[1], e[2]); fd != nil {
@@ -388,6 +391,69 @@ func extractFacts(repo string) (string, error) {
 	}
 	facts["executeLoop"] = loop
 
+	// 9. gRPC retryable code table (keys of the map literal, as numeric codes)
+	codeNum := map[string]int{"OK": 0, "Canceled": 1, "Unknown": 2, "InvalidArgument": 3, "DeadlineExceeded": 4, "NotFound": 5, "AlreadyExists": 6,
+		"PermissionDenied": 7, "ResourceExhausted": 8, "FailedPrecondition": 9, "Aborted": 10, "OutOfRange": 11, "Unimplemented": 12, "Internal": 13,
+		"Unavailable": 14, "DataLoss": 15, "Unauthenticated": 16}
+	grpcCodes := []int{}
+	if f := fx.file("failsafegrpc/policy.go"); f != nil {
+		ast.Inspect(f, func(n ast.Node) bool {
+			vs, ok := n.(*ast.ValueSpec)
+			if !ok || len(vs.Names) != 1 || vs.Names[0].Name != "retryableStatusCodes" || len(vs.Values) != 1 {
+				return true
+			}
+			if cl, ok := vs.Values[0].(*ast.CompositeLit); ok {
+				for _, el := range cl.Elts {
+					if kv, ok := el.(*ast.KeyValueExpr); ok {
+						name := strings.TrimPrefix(srcOf(kv.Key), "codes.")
+						if c, ok := codeNum[name]; ok {
+							grpcCodes = append(grpcCodes, c)
+						} else {
+							grpcCodes = append(grpcCodes, 1000) // unknown key: makes the table expectation fail
+						}
+					}
+				}
+			}
+			return false
+		})
+	}
+	sort.Ints(grpcCodes)
+	facts["grpcRetryableCodes"] = grpcCodes
+
+	// 10. the builder chain of the HTTP retry policy (conditions, abort condition, delay function)
+	chain := "unknown"
+	if fd := fx.fn("failsafehttp/policy.go", "", "RetryPolicyBuilder"); fd != nil {
+		for _, st := range fd.Body.List {
+			if rs, ok := st.(*ast.ReturnStmt); ok && len(rs.Results) == 1 {
+				chain = srcOf(rs.Results[0])
+			}
+		}
+	}
+	facts["httpRetryBuilderChain"] = chain
+	gchain := "unknown"
+	if fd := fx.fn("failsafegrpc/policy.go", "", "RetryPolicyBuilder"); fd != nil {
+		for _, st := range fd.Body.List {
+			if rs, ok := st.(*ast.ReturnStmt); ok && len(rs.Results) == 1 {
+				if c, ok := rs.Results[0].(*ast.CallExpr); ok {
+					gchain = srcOf(c.Fun)
+				}
+			}
+		}
+	}
+	facts["grpcRetryBuilderChain"] = gchain
+	regexes := map[string]string{}
+	if f := fx.file("failsafehttp/policy.go"); f != nil {
+		ast.Inspect(f, func(n ast.Node) bool {
+			if vs, ok := n.(*ast.ValueSpec); ok && len(vs.Names) == 1 && len(vs.Values) == 1 {
+				if c, ok := vs.Values[0].(*ast.CallExpr); ok && srcOf(c.Fun) == "regexp.MustCompile" {
+					regexes[vs.Names[0].Name] = srcOf(c.Args[0])
+				}
+			}
+			return true
+		})
+	}
+	facts["httpRegexes"] = regexes
+
 	if len(fx.errs) > 0 {
 		facts["errors"] = fx.errs
 	}
@@ -405,6 +471,12 @@ func extractFacts(repo string) (string, error) {
 	sb.WriteString(fmt.Sprintf("def hedgeChanCap : Int := %d\n\n", hedgeCap))
 	sb.WriteString("/-- goroutine and timer spawn sites of the library (kind file:receiver.function) -/\n")
 	sb.WriteString("def spawnSites : List String := " + leanStrList(sites) + "\n\n")
+	gc := []string{}
+	for _, c := range grpcCodes {
+		gc = append(gc, fmt.Sprint(c))
+	}
+	sb.WriteString("/-- numeric gRPC codes in `retryableStatusCodes`, sorted -/\n")
+	sb.WriteString("def grpcRetryableCodes : List Nat := [" + strings.Join(gc, ", ") + "]\n\n")
 	sb.WriteString("end Failsafe.Generated.Facts\n")
 	if len(fx.errs) > 0 {
 		return sb.String(), fmt.Errorf("%s", strings.Join(fx.errs, "; "))
